@@ -115,7 +115,7 @@ def plan(tier, seed):
     if tier == "thorough":
         pm_S += [[[3, 3, 0], [0, 1, 0], [0, 0, 2]], [[2, 0, 0], [0, 2, 0], [0, 0, 4]], [[-1, 1, 1], [1, -1, 1], [1, 1, -1]],
                  [[2, -2, 0], [2, 2, 0], [0, 0, 2]]]
-    for name in names:
+    for name in list(names) + ["ortho-B-conv-4"]:
         g = []
         for var in (("as-is", "shifted") if tier == "quick" else ("as-is", "reversed", "outside", "shifted")):
             if var == "reversed" and len(cr[name]["symbols"]) == 1:
@@ -142,6 +142,10 @@ def plan(tier, seed):
         for pm in cr[name]["centring"]:
             for S in pm_S[:3]:
                 g.append({"kind": "prim-noisy", "xtal": name, "S": S, "pm": pm, "noise": 1e-4, "symprec": 1e-3})
+                # the same crystal described in a strongly sheared (non-reduced) basis c' = c + k a, atoms off their sites by a fraction
+                # of the default tolerance: distances have to be measured with the right metric
+                for k in (7, -13):
+                    g.append({"kind": "prim-noisy", "xtal": name, "S": S, "pm": pm, "noise": 2e-6, "symprec": 1e-5, "shear": k})
     groups.append(g)
     meta = {"alphabet": {"SMALL{-1,0,1}": len(small), "extra_matrices": len(extra), "crystals": len(names),
                          "small_cells": small_cells, "primitive_S": len(pm_S), "PMAT": 10,
@@ -360,6 +364,9 @@ def run_prim(case, seed):
         except Exception as e:
             return dict(ok=True, outcome="auto-guess-raised:%s" % type(e).__name__, nontrivial=False, transitions=1)
     tiles_struct = _tiles(c, P)
+    if case["pm"] == "auto" and not tiles_struct:
+        return _fail("C04/prim/auto-guess-not-a-tiling", "%s %s: the guessed primitive matrix %s is not a set of translations of the crystal" % (case["xtal"], case["variant"], np.round(P, 4).tolist()),
+                     nontrivial=True, transitions=1)
     tiles = tiles_struct if mags is None else _tiles(dict(c, symbols=["%s%g" % (s, m) for s, m in zip(c["symbols"], mags)]), P)
     try:
         ph = _quiet(Phonopy, cell, supercell_matrix=S, primitive_matrix=arg, store_dense_svecs=case["dense"],
@@ -410,11 +417,16 @@ def run_prim_noisy(case, seed):
     cn = dict(c, positions=pos.tolist())
     P = X.CENTRING[case["pm"]]
     n_expect = int(round(len(c["symbols"]) * np.linalg.det(P)))
+    pm_arg = case["pm"]
+    if case.get("shear"):
+        M = np.array([[1, 0, 0], [0, 1, 0], [case["shear"], 0, 1]], float)
+        cn = dict(c, lattice=(M @ L).tolist(), positions=(pos @ np.linalg.inv(M)).tolist())
+        pm_arg = np.linalg.inv(M.T) @ np.array(P, float)  # the same primitive lattice expressed in the sheared basis
     try:
-        ph = _quiet(Phonopy, X.to_phonopy(cn), supercell_matrix=np.array(case["S"], int), primitive_matrix=case["pm"], symprec=case["symprec"], is_symmetry=False)
+        ph = _quiet(Phonopy, X.to_phonopy(cn), supercell_matrix=np.array(case["S"], int), primitive_matrix=pm_arg, symprec=case["symprec"], is_symmetry=False)
     except Exception as e:
-        return _fail("C04/prim-noisy/valid-rejected", "%s S=%s pm=%s, atoms off their sites by <= %g A, symprec=%g: rejected (%s: %s)" % (
-            case["xtal"], case["S"], case["pm"], case["noise"], case["symprec"], type(e).__name__, str(e)[:80]), nontrivial=True, transitions=1)
+        return _fail("C04/prim-noisy/valid-rejected" + ("/sheared-basis" if case.get("shear") else ""), "%s S=%s pm=%s%s, atoms off their sites by <= %g A, symprec=%g: rejected (%s: %s)" % (
+            case["xtal"], case["S"], case["pm"], " basis sheared by %d a" % case["shear"] if case.get("shear") else "", case["noise"], case["symprec"], type(e).__name__, str(e)[:80]), nontrivial=True, transitions=1)
     pr, sc = ph.primitive, ph.supercell
     if len(pr) != n_expect or len(sc) != len(pr) * round(abs(SM.det3(case["S"])) / np.linalg.det(P)):
         return _fail("C04/prim-noisy/atom-count", "%s pm=%s: %d primitive atoms (expected %d), %d supercell atoms" % (case["xtal"], case["pm"], len(pr), n_expect, len(sc)), nontrivial=True, transitions=1)
